@@ -34,7 +34,7 @@ def body_text(body):
 
 
 class Box:
-    def __init__(self, rng, main_name='policy.yaml'):
+    def __init__(self, rng, main_name='policy.yaml', make_dirs=True):
         self.root = tempfile.mkdtemp(prefix='verif_fs_')
         self.rng = rng
         self.clock = 1
@@ -46,9 +46,12 @@ class Box:
         self.names['d1/b'] = 'd1[site]/' + rng.choice(['b-first-created.json', 'b.rpmsave', 'b.yaml.dpkg-old', 'b.rej'])
         self.names['d2/a'] = 'd2 *?/' + rng.choice(['a.yaml', '10-site.json.orig', 'overrides.bak', 'a.txt', 'A'])
         self.dirnames = {'d1': 'd1[site]', 'd2': 'd2 *?', 'd3': 'd3'}
-        for d in ('d1', 'd2'):
-            os.makedirs(os.path.join(self.root, self.dirnames[d]))
-        self.dir_mtime = {'d1': 1, 'd2': 1}
+        self.make_dirs = make_dirs
+        self.dir_mtime = {}
+        if make_dirs:
+            for d in ('d1', 'd2'):
+                os.makedirs(os.path.join(self.root, self.dirnames[d]))
+            self.dir_mtime = {'d1': 1, 'd2': 1}
         self._stamp_dirs()
 
     def path(self, f):
@@ -80,6 +83,8 @@ class Box:
         self.clock += 1
         p = self.path(f)
         existed = os.path.exists(p)
+        if self._dir_of(f):
+            os.makedirs(os.path.join(self.root, self.dirnames[self._dir_of(f)]), exist_ok=True)      # created with its first entry
         if f == 'd1/sub':
             os.makedirs(p, exist_ok=True)
             with open(os.path.join(p, 'x.yaml'), 'w') as fh:
